@@ -7,7 +7,7 @@ LEAN_MODULES = ["MesaModel.Props.C17"]
 THEOREMS = ["Mesa.Computed." + t for t in (
     "C17_no_stale_partial", "C17_define_fresh", "C17_raise_is_fresh", "C17_den_deterministic", "C17_clean_is_fresh",
     "C17_failed_is_dirty", "C17_remembers_exactly_last_reads",
-    "C17_minimal_partial", "C17_read_leaves_clean_and_later_untouched", "C17_cached_read_is_free", "C17_cycle_rejected", "C17_cycle_never_returns",
+    "C17_minimal", "C17_minimal_partial", "C17_read_leaves_clean_and_later_untouched", "C17_cached_read_is_free", "C17_cycle_rejected", "C17_cycle_never_returns",
     "C17_cycle_rejected_direct", "C17_cycle_record_per_evaluation", "C17_no_stale_refuted_with_reading_handler")]
 COUNTS = {"quick": 1500, "thorough": 150000}
 EXHAUSTIVE = {"thorough": True}
